@@ -38,13 +38,16 @@ ASSUMPTIONS = [
     "which models iteration interleaving, not the hardware memory model",
     "E3d interleavings are those of the interpreted sources (NUMBA_DISABLE_JIT=1) at Python line granularity",
 ]
-BOUNDS = {
-    "quick": {"alphabet": 31, "core": 11, "pair_cover": "B(31,2)", "triple_cover": "B(6,3)", "trie_depth": 2, "trie_letters": 6,
-              "preemptions": 1, "numba_threads": [1, 16], "dask": ["synchronous", "threads:1", "threads:4", "threads:16"]},
-    "thorough": {"alphabet": 60, "core": 11, "pair_cover": "B(60,2)", "triple_cover": "B(11,3)", "trie_depth": 2,
-                 "trie_letters": 11, "preemptions": 2, "numba_threads": [1, 2, 16],
-                 "dask": ["synchronous", "threads:1", "threads:4", "threads:16"]},
-}
+def _bounds(tier):
+    names, core = letter_names(tier)
+    kc = 6 if tier == "quick" else len(core)
+    return {"alphabet": len(names), "letters": names, "core": core[:kc], "pair_cover": "de Bruijn B(%d,2)" % len(names),
+            "triple_cover": "de Bruijn B(%d,3)" % kc, "trie_depth": 2, "trie_letters": kc,
+            "preemptions": 1 if tier == "quick" else 2, "numba_threads": [1, 16] if tier == "quick" else [1, 2, 16],
+            "dask": ["synchronous", "threads:1", "threads:4", "threads:16"]}
+
+
+BOUNDS = {"quick": _bounds("quick"), "thorough": _bounds("thorough")}
 
 
 def _fresh(tier, letter):
